@@ -17,7 +17,7 @@ for _s, _tree, _tok, _files in _C07_TREES:
       callees={_tok: "contract: requires 1 <= recurse_depth <= kMaxExportRecursiveDepth at every call site, ensures recurse_depth restored (C02(c)) and ghost call counter + 1"},
       assumptions=[_C07_SHAPE])
 
-U("c07_guard_parse_chain", ["C07"], "h_parse", ["C07/guards.c"], ["mmd.c"], enforce="mmd_parse_token_chain",
+U("c07_guard_parse_chain", ["C07", "C05"], "h_parse", ["C07/guards.c"], ["mmd.c"], enforce="mmd_parse_token_chain",
   replace=["Parse", "ParseAlloc", "ParseFree", "token_append_child"], lib=(),
   defines=["-DI18N_DISABLED=1", "-DC07_PARSE=1"], kind="bounded",
   bounds={"line tokens in the chain<=": 3, "unwind": 5, "recurse_depth": "all of 0..kMaxParseRecursiveDepth"},
